@@ -752,7 +752,9 @@ def rewrite_table(ctx):
     out = []
     star = Obj('Star')
     shapes = [(['int1', 'tbl', 'col'], True), (['INT1', 'tbl', 'col'], True), (['int1', 'tbl'], True), (['int1', 'tbl', star], True), (['Int1', star], True),
-              (['tbl', 'col'], False), (['col'], False), (['int1'], False), (['int2', 'tbl', 'col'], False), (['x', 'int1', 'col'], False)]
+              (['tbl', 'col'], False), (['col'], False), (['int1'], False), (['int2', 'tbl', 'col'], False), (['x', 'int1', 'col'], False),
+              # a quoted name that contains a dot is ONE part
+              (['first.name'], False), (['int1', 'tbl', 'first.name'], True), (['int1.x'], False)]
     froms = {'table': Obj('Identifier', parts=['int1', 'tbl'], alias=None), 'join': Obj('Join'), 'no-from': None, 'not-a-query': 'absent'}
 
     def traverse(it, query, callback, **kw):
